@@ -67,6 +67,15 @@ def gen_cases(rng, n, tier):
                 q = N.rand_mag(rng, 3) or 1
                 if rng.random() < 0.25:
                     q = 1
+                elif rng.random() < 0.2:
+                    # numerator and denominator in a RELATION (reading the text reduces the fraction: the first quotient of the
+                    # gcd equals the divisor, a multiple of it, or a power): x^2 +- 1 over x, (x + 1) x + 1 over x, x^3 + 1 over x^2
+                    x = (N.rand_mag(rng, 4) or 3) if rng.random() < 0.5 else N.rand_runs(rng, rng.randint(2, 6))
+                    x = max(x, 2)
+                    p, q = rng.choice([(x * x + 1, x), (x * x - 1, x) if x > 2 else (5, 2), ((x + 1) * x + 1, x), (x ** 3 + 1, x * x),
+                                       (x * x + 1, x + 1) if x % 2 == 0 else (x * x + 1, x), (x, x * x + 1)])
+                    if rng.random() < 0.4:
+                        p = -p
                 ctor, v = '%s %s nfrombig' % (N.limbs_tok(p), N.limbs_tok(q)), Fraction(p, q)
             if v is None:
                 script = '%s ntostr dup out nfromstr out' % ctor
